@@ -120,6 +120,10 @@ def gen_pulse_spec(rng):
     d = pick(rng, [4, 16, 20, 50, 52, 100, 101, 200, 333, 400, 1000, 7, 1])
     ph = pick(rng, [0, 0, 1.0, math.pi, 4.5, -1.0])
     k = pick(rng, ["const", "const", "ramp", "black", "detramp"])
+    if rng.random() < 0.02:
+        # non-finite values (given directly, or produced by a one-sample ramp): never acceptable on any channel
+        return pick(rng, [("const", d, float("nan"), 0.0, ph, 0), ("const", d, 1.0, float("inf"), ph, 0), ("const", d, 1.0, float("nan"), ph, 0),
+                          ("ramp", 1, 0.0, 1.0, 0.0, ph), ("detramp", 1, 1.0, -1.0, 0.0, ph)])
     if k == "const":
         return ("const", d, pick(rng, [0.0, 1.0, 5.0, 10.0, 15.7, 15.8, 0.3]), pick(rng, [0.0, -5.0, 20.0, 20.1, -125.0]), ph, pick(rng, [0, 0, 0.5]))
     if k == "ramp":
